@@ -491,8 +491,8 @@ def _is_placeholder_leak(case, fail: Fail) -> bool:
 def _is_set_rule_stop(case, fail: Fail) -> bool:
     """fixpoint fails although the first resolve_aliases call stopped exactly where the documented rule stops
     (an iteration that leaves the same *set* of unresolved aliases as the previous one): the same history is re-run
-    in a fresh loader with the failing call replaced by single iterations (max_iterations=1) until two consecutive
-    iterations return the same set; the finding is recognised iff the real call did that number of iterations and
+    in a fresh loader with the failing call replaced by its passes run one at a time (expand_wildcards once, then
+    resolve_module_aliases over the collection per pass) until two consecutive passes return the same set; the finding is recognised iff the real call did that number of iterations and
     returned that set.  Then the cause is the rule itself: an iteration can make progress without changing the set
     (it side-loaded a package; aliases of modules visited earlier in that iteration, or of the new package, are
     not retried).  A call that stops earlier or later than the rule (e.g. comparing counts) is not attributed."""
@@ -513,10 +513,19 @@ def _is_set_rule_stop(case, fail: Fail) -> bool:
                 return False
         implicit, external = steps[idx][1], steps[idx][2]
         sets = []
+        loader = session.loader
+        collection = loader.modules_collection.members
         with time_limit(CALL_BUDGET_S * 20):
+            # the passes of resolve_aliases, one at a time, through the public building blocks it is made of
+            for module in list(collection.values()):
+                loader.expand_wildcards(module, external=external)
+            load_failures: set = set()
             while len(sets) < 25:
-                u, _ = session.loader.resolve_aliases(implicit=implicit, external=external, max_iterations=1)
-                sets.append(set(u))
+                u: set = set()
+                for name in list(collection.keys()):
+                    _r, nu = loader.resolve_module_aliases(collection[name], implicit=implicit, external=external, load_failures=load_failures)
+                    u |= nu
+                sets.append(u)
                 if not u or (len(sets) > 1 and sets[-1] == sets[-2]):
                     break
     except (Exception, CaseTimeout):  # noqa: BLE001
